@@ -1148,6 +1148,7 @@ func funcAt(p *Prog, region map[*ssa.Function]bool, s bceSite) *ssa.Function {
 }
 
 var c07Canaries = []Canary{
+	{Name: "r4-read-at-least-one", ExpectKey: "C07.R7", Edits: []Edit{{File: "lfs/pointer.go", Find: "io.ReadFull(reader, buf)", Repl: "io.ReadAtLeast(reader, buf, 1)"}}},
 	{Name: "oid-uppercase", ExpectKey: "C07.R1#oidRE-language", Edits: []Edit{{File: "lfs/pointer.go", Find: "`\\A[0-9a-f]{64}\\z`", Repl: "`\\A[0-9a-fA-F]{64}\\z`"}}},
 	{Name: "oid-unanchored", ExpectKey: "C07.R1#oidRE-language", Edits: []Edit{{File: "lfs/pointer.go", Find: "`\\A[0-9a-f]{64}\\z`", Repl: "`\\A[0-9a-f]{64}`"}}},
 	{Name: "size-minus-one", ExpectKey: "C07.R2#decodeKV:size-nonnegative", Edits: []Edit{{File: "lfs/pointer.go", Find: "	if err != nil || size < 0 {", Repl: "	if err != nil || size < -1 {"}}},
